@@ -198,7 +198,9 @@ func (f *OrefaFile) Read(b []byte) (n int, err error) {
 
 	avfs.VerifBeforeLock(&nd.mu, false)
 	nd.mu.RLock()
-	n = copy(b, nd.data[f.at:])
+	if f.at < int64(len(nd.data)) {
+		n = copy(b, nd.data[f.at:])
+	}
 	nd.mu.RUnlock()
 
 	f.at += int64(n)
@@ -647,7 +649,15 @@ func (f *OrefaFile) Write(b []byte) (n int, err error) {
 	avfs.VerifBeforeLock(&nd.mu, true)
 	nd.mu.Lock()
 
-	n = copy(nd.data[f.at:], b)
+	if gap := f.at - int64(len(nd.data)); gap > 0 && len(b) > 0 {
+		// The offset is beyond the end of the file: the gap reads as zeros.
+		nd.data = append(nd.data, make([]byte, gap)...)
+	}
+
+	if f.at <= int64(len(nd.data)) {
+		n = copy(nd.data[f.at:], b)
+	}
+
 	if n < len(b) {
 		nd.data = append(nd.data, b[n:]...)
 		n = len(b)
